@@ -13,6 +13,7 @@ every apply/apply_transposed overload of every LAFEM matrix container):
   clause 6  C6.inputs-const / C6.view-alias / C6.kernel-const
   clause 7  E4.parity / E4.matvec / E4.blocks / E4.view-perspective   (meta matrices)
   clause 4  E2.kernel-*          light index-kind rules on the *_generic kernels
+  aliasing  E5.alias-safe        r may alias y: no read of y after a write to r unless r != y was tested (CFG, param-atom path sensitive)
 
 Keys are source-level (class template, variant, method, operand kinds): instantiations of the same
 overload are aggregated into one obligation (the detail names the failing instantiation).
@@ -1086,6 +1087,361 @@ def rule_e4(ck, agg, f, fi, persp_guards):
 
 
 # --------------------------------------------------------------------------------------------------
+# E5.alias-safe: r may alias y (4-operand forms) — decided on the CFG with param-atom path sensitivity
+# --------------------------------------------------------------------------------------------------
+
+def _leaf_last(n):
+    while n.get("k") == "Bin" and n.get("op") in ("||", "&&"):
+        n = n["rhs"]
+    return n
+
+
+class AliasCFG:
+    """feasible-path search over the clang CFG of one kernel.  Conditions that mention only (never assigned)
+    parameters are tracked as atoms: a path may not take the true edge of an atom and later its false edge."""
+
+    def __init__(self, f, fi, ptr_names):
+        self.f, self.fi, self.cfg = f, fi, f.cfg
+        self.ptr = ptr_names      # decl id -> 'r' | 'y' | ... for pointer params and their aliases
+        self.cons = {}
+        for b in self.cfg.blocks.values():
+            self.cons[b["id"]] = self._atom(b)
+
+    def _param_only(self, n):
+        for x in walk(n):
+            if x.get("k") == "Ref":
+                if x.get("dk") == "param":
+                    if x.get("d") in self.fi.assigned:
+                        return False
+                elif x.get("dk") in ("local", "field", "global", "smember"):
+                    return False
+            elif x.get("k") in ("Assign", "Un") and x.get("op") in ("=", "++", "--", "+=", "-="):
+                return False
+            elif x.get("k") in ("MCall", "Member", "This", "Index"):
+                return False
+        return True
+
+    def atom_key(self, n):
+        """-> (key, polarity) of a condition atom, or None"""
+        n = self.fi.resolve(n)
+        pol = True
+        while n.get("k") == "Un" and n.get("op") == "!":
+            n = self.fi.resolve(n["e"])
+            pol = not pol
+        if not self._param_only(n):
+            return None
+        if n.get("k") == "Bin":
+            op = n.get("op")
+            l, r = self.fi.resolve(n["lhs"]), self.fi.resolve(n["rhs"])
+            names = {self.ptr.get(l.get("d")) if l.get("k") == "Ref" else None, self.ptr.get(r.get("d")) if r.get("k") == "Ref" else None}
+            if op in ("!=", "==") and names == {"r", "y"}:
+                return ("r!=y", pol if op == "!=" else not pol)
+            if op in (">=", ">"):
+                return ("(%s %s %s)" % (render(l), "<" if op == ">=" else "<=", render(r)), not pol)
+            if op in ("<", "<=", "==", "!="):
+                if op == "!=":
+                    return ("(%s == %s)" % (render(l), render(r)), not pol)
+                return ("(%s %s %s)" % (render(l), op, render(r)), pol)
+            return None
+        if n.get("k") in ("Ref", "Call"):
+            return (render(n), pol)
+        return None
+
+    def _atom(self, b):
+        cid = b.get("cond")
+        succ = b.get("succ", [])
+        if cid is None or len(succ) != 2:
+            return None
+        cn = self.f.by_id(cid)
+        if cn is None:
+            return None
+        term = b.get("term")
+        if term in ("IfStmt", "ConditionalOperator"):
+            return self.atom_key(_leaf_last(self.fi.resolve(cn)))
+        if term == "BinaryOperator":
+            return self.atom_key(cn)
+        return None
+
+    def reach(self, sb, sp, assign, target, avoid=()):
+        """assignments (dicts) with which statement position target=(block, pos) is reached on a feasible path that
+        starts at position sp of block sb under `assign` and executes no statement in `avoid` before the target"""
+        tb, tp = target
+        out, seen = [], set()
+        queue = [(sb, sp, dict(assign))]
+        while queue:
+            b, p, A = queue.pop()
+            els = self.cfg.blocks[b]["el"]
+            stopped = False
+            for q in range(p, len(els)):
+                if b == tb and q == tp:
+                    out.append(A)
+                if els[q] in avoid:
+                    stopped = True
+                    break
+            if stopped:
+                continue
+            c = self.cons.get(b)
+            for i, s in enumerate(self.cfg.blocks[b].get("succ", [])):
+                if s is None:
+                    continue
+                A2 = A
+                if c is not None:
+                    key, pol = c
+                    val = (i == 0) == pol
+                    if key in A and A[key] != val:
+                        continue
+                    if key not in A:
+                        A2 = dict(A)
+                        A2[key] = val
+                st = (s, tuple(sorted(A2.items())))
+                if st in seen:
+                    continue
+                seen.add(st)
+                queue.append((s, 0, A2))
+        return out
+
+
+def rule_alias(ck, agg, facts):
+    """r may alias y (apply(r,x,r,alpha) is permitted and used by the meta matrices).  In every kernel/wrapper that
+    receives both: a read of y must not be preceded, on a feasible path on which r != y has not been established, by
+    a write to r that can hit the element read."""
+    R_ = "E5.alias-safe"
+    viol_fns = set()
+    for f in facts.functions:
+        if f.tk == "pattern" or not (f.cls == "FEAT::LAFEM::Arch::Apply" or "Arch::Intern::ApplyBanded" in f.qn):
+            continue
+        rp = [p for p in f.params if p["n"] == "r"]
+        yp = [p for p in f.params if p["n"] in ("y", "rhs")]
+        if not rp or not yp or f.cfg is None:
+            continue
+        key = "Arch::%s" % f.qn.split("Arch::", 1)[-1]
+        dfile = display_file(f)
+        fi = FnInfo(f)
+        bslot = next((i for i, p in enumerate(f.params) if p["n"] in BETA_SLOTS), None)
+        ptr = {rp[0]["d"]: "r", yp[0]["d"]: "y"}
+        changed = True
+        while changed:
+            changed = False
+            for d, v in fi.vars.items():
+                if d in ptr or "*" not in f.type(v.get("t")):
+                    continue
+                init = v.get("init")
+                while init is not None and init.get("k") == "Cast":
+                    init = init.get("e")
+                if init is not None and init.get("k") == "Ref" and init.get("d") in ptr:
+                    ptr[d] = ptr[init["d"]]
+                    changed = True
+        if any(d in fi.assigned for d in ptr):
+            ck.incomplete(R_, "%s: pointer r/y (or an alias) is reassigned" % key)
+            continue
+        acfg = AliasCFG(f, fi, ptr)
+        cfg = f.cfg
+
+        def stmt_pos(n):
+            cur = n
+            while cur is not None:
+                if "i" in cur and cfg.block_of(cur["i"]) is not None:
+                    return cfg.block_of(cur["i"]), cur
+                cur = fi.parent.get(id(cur))
+            return None, None
+
+        def loop_of(n):
+            cur = n
+            while id(cur) in fi.parent:
+                cur = fi.parent[id(cur)]
+                if cur.get("k") in ("For", "While", "Do", "ForRange"):
+                    return cur
+            return None
+
+        def cond_inside(n, loop):
+            cur = n
+            while id(cur) in fi.parent:
+                cur = fi.parent[id(cur)]
+                if cur is loop:
+                    return False
+                if cur.get("k") in ("If", "Cond", "Switch"):
+                    return True
+            return False
+
+        def nested(a, b):
+            cur = a
+            while cur is not None:
+                if cur is b:
+                    return True
+                cur = fi.parent.get(id(cur))
+            return False
+
+        reads, writes, unknown = [], [], []
+        for n in f.nodes():
+            if n.get("k") != "Ref" or n.get("d") not in ptr:
+                continue
+            who = ptr[n["d"]]
+            par = fi.parent.get(id(n))
+            while par is not None and par.get("k") == "Cast":
+                par = fi.parent.get(id(par))
+            if par is None:
+                continue
+            pk = par.get("k")
+            if pk == "Var" or (pk == "Decl"):
+                continue                                   # alias declaration
+            if pk == "Bin" and par.get("op") in ("==", "!="):
+                continue                                   # pointer comparison
+            sub = None
+            if pk == "Index" and par.get("b") is not None and n in list(walk(par["b"])) and par["b"].get("k") in ("Ref", "Cast"):
+                sub = (par, par["idx"])
+            elif pk == "OpCall" and par.get("op") == "[]" and len(par.get("a", [])) == 2 and n in list(walk(par["a"][0])):
+                sub = (par, par["a"][1])
+            if sub is not None:
+                node, idx = sub
+                up = fi.parent.get(id(node))
+                is_write = False
+                if up is not None:
+                    if up.get("k") == "Assign" and up.get("lhs") is node:
+                        is_write = True
+                    elif up.get("k") == "OpCall" and up.get("op") in ("=", "+=", "-=", "*=", "/=") and up.get("a") and up["a"][0] is node:
+                        is_write = True
+                    elif up.get("k") == "MCall" and up.get("obj") is node and not up.get("cconst"):
+                        is_write = True
+                    elif up.get("k") == "Un" and up.get("op") in ("++", "--", "&"):
+                        is_write = True
+                if who == "r" and is_write:
+                    writes.append({"kind": "elem", "node": up, "idx": idx})
+                elif who == "y" and is_write:
+                    unknown.append("write through y: %s (line %s)" % (render(up)[:60], up.get("l")))
+                elif who == "y":
+                    reads.append({"kind": "elem", "node": node, "idx": idx})
+                continue
+            if pk in ("Call", "MCall", "Construct"):
+                cal = par.get("callee", "")
+                args = par.get("a", [])
+                ai = next((i for i, a in enumerate(args) if n in list(walk(a))), None)
+                if re.search(r"MemoryPool::(set_memory|copy)$", cal) and ai is not None:
+                    if ai == 0 and who == "r":
+                        writes.append({"kind": "whole", "node": par, "idx": None})
+                        continue
+                    if ai == 1 and who == "y" and cal.endswith("::copy"):
+                        reads.append({"kind": "whole", "node": par, "idx": None})
+                        continue
+                if who == "r":
+                    writes.append({"kind": "call", "node": par, "idx": None})
+                else:
+                    reads.append({"kind": "whole", "node": par, "idx": None})
+                continue
+            unknown.append("%s used in '%s' (line %s)" % (who, render(par)[:60], par.get("l")))
+        if unknown:
+            ck.incomplete(R_, "%s: access to r/y of unrecognised shape: %s" % (key, "; ".join(unknown[:3])))
+            continue
+
+        def scaled_by_b(rd):
+            """the value read flows only into products with the parameter b/beta"""
+            if bslot is None or rd["kind"] != "elem":
+                return False
+
+            def times_b(node):
+                up = fi.parent.get(id(node))
+                while up is not None and up.get("k") == "Cast":
+                    node, up = up, fi.parent.get(id(up))
+                if up is None:
+                    return False
+                if up.get("k") == "Bin" and up.get("op") == "*":
+                    other = up["rhs"] if up["lhs"] is node else up["lhs"]
+                    return fi.role(other) == ("param", bslot)
+                if up.get("k") == "OpCall" and up.get("op") == "*" and len(up.get("a", [])) == 2:
+                    other = up["a"][1] if up["a"][0] is node else up["a"][0]
+                    return fi.role(other) == ("param", bslot)
+                return False
+            if times_b(rd["node"]):
+                return True
+            up = fi.parent.get(id(rd["node"]))
+            while up is not None and up.get("k") == "Cast":
+                up = fi.parent.get(id(up))
+            if up is not None and up.get("k") == "Var" and up.get("d") not in fi.assigned:
+                uses = [x for x in f.nodes() if x.get("k") == "Ref" and x.get("d") == up["d"]]
+                return bool(uses) and all(times_b(u) for u in uses)
+            return False
+
+        bzero_key = None
+        if bslot is not None:
+            for b in cfg.blocks.values():
+                cid = b.get("cond")
+                cn = f.by_id(cid) if cid is not None else None
+                if cn is None:
+                    continue
+                for leaf in [x for x in walk(fi.resolve(cn)) if x.get("k") == "Bin" and x.get("op") in ("<", "<=")]:
+                    l = fi.resolve(leaf["lhs"])
+                    if l.get("k") == "Call" and l.get("callee", "").endswith("Math::abs") and len(l.get("a", [])) == 1 and fi.role(l["a"][0]) == ("param", bslot):
+                        ak = acfg.atom_key(leaf)
+                        if ak:
+                            bzero_key = ak[0]
+        bad, inc = [], []
+        for rd in reads:
+            rpos, rstmt = stmt_pos(rd["node"])
+            if rpos is None:
+                inc.append("read of y at line %s is not a CFG statement" % rd["node"].get("l"))
+                continue
+            Lr = loop_of(rd["node"])
+            for w in writes:
+                wpos, wstmt = stmt_pos(w["node"])
+                if wpos is None:
+                    inc.append("write to r at line %s is not a CFG statement" % w["node"].get("l"))
+                    continue
+                same_stmt = wstmt is rstmt or nested(rd["node"], w["node"])
+                if same_stmt and w["kind"] != "elem":
+                    continue                              # copy(r, y, n) / kernel(r, ..., y): one call reads y and writes r
+                hazard_paths = []
+                for Aw in acfg.reach(cfg.entry, 0, {}, wpos):
+                    for Ar in acfg.reach(wpos[0], wpos[1] + 1, Aw, rpos):
+                        if Ar.get("r!=y") is True:
+                            continue                      # r and y are distinct arrays on this path
+                        hazard_paths.append(Ar)
+                if not hazard_paths:
+                    continue
+                wl, rl = w["node"].get("l"), rd["node"].get("l")
+                bz_only = bzero_key is not None and all(A.get(bzero_key) is True for A in hazard_paths)
+                if bz_only and scaled_by_b(rd):
+                    continue                              # |b| < eps on every such path and the value is only multiplied by b
+                if w["kind"] == "whole":
+                    if bz_only:
+                        inc.append("y is read (line %s) after r was filled (line %s) on the |b| < eps path, and the value is not visibly scaled by b" % (rl, wl))
+                    else:
+                        bad.append("r is overwritten as a whole by '%s' (line %s) and y is read afterwards ('%s', line %s) on a path where r != y is not established: "
+                                   "with r aliasing y (apply*(r,x,r,alpha)) the summand is destroyed before it is read" % (render(w["node"])[:50], wl, render(rd["node"])[:30], rl))
+                    continue
+                if w["kind"] == "call":
+                    inc.append("r is passed to %s (line %s) before y is read (line %s)" % (w["node"].get("callee", "?").rsplit("::", 1)[-1], wl, rl))
+                    continue
+                # element write vs element read
+                if rd["kind"] != "elem":
+                    inc.append("element write to r (line %s) precedes a whole read of y (line %s)" % (wl, rl))
+                    continue
+                Lw = loop_of(w["node"])
+                lbr = loop_bound(fi, Lr) if Lr is not None and Lr.get("k") == "For" else None
+                lbw = loop_bound(fi, Lw) if Lw is not None and Lw.get("k") == "For" else None
+                r_ind = lbr is not None and fi.resolve(rd["idx"]).get("k") == "Ref" and fi.resolve(rd["idx"]).get("d") == lbr[0]
+                w_ind = lbw is not None and fi.resolve(w["idx"]).get("k") == "Ref" and fi.resolve(w["idx"]).get("d") == lbw[0]
+                if Lw is not None and Lw is Lr and r_ind and w_ind:
+                    inc_id = (Lr.get("inc") or {}).get("i")
+                    same_iter = any(True for Aw in acfg.reach(cfg.entry, 0, {}, wpos) for _ in acfg.reach(wpos[0], wpos[1] + 1, Aw, rpos, avoid={inc_id})) and not same_stmt
+                    if same_iter:
+                        bad.append("r[%s] is written (line %s) before y[%s] is read (line %s) in the same loop iteration: wrong when r aliases y" % (render(w["idx"]), wl, render(rd["idx"]), rl))
+                    # else: earlier iterations wrote other elements (the index is the induction variable): safe
+                    continue
+                if r_ind and w_ind and Lw is not Lr and not nested(Lr, Lw) and not nested(Lw, Lr) and not cond_inside(w["node"], Lw) \
+                        and fi.role(lbr[1]) == ("const", 0.0) and fi.role(lbw[1]) == ("const", 0.0) and render(fi.resolve(lbr[2])) == render(fi.resolve(lbw[2])):
+                    bad.append("the loop at line %s writes r[%s] for every index below %s before the loop at line %s reads y[%s] over the same range: "
+                               "with r aliasing y (apply*(r,x,r,alpha)) the summand is destroyed before it is read" % (Lw.get("l"), render(w["idx"]), render(lbw[2]), Lr.get("l"), render(rd["idx"])))
+                    continue
+                inc.append("element write r[%s] (line %s) can precede the read y[%s] (line %s); overlap under aliasing not decided" % (render(w["idx"]), wl, render(rd["idx"]), rl))
+        if bad:
+            viol_fns.add(f.name)
+        elif inc:
+            ck.incomplete(R_, "%s: %s" % (key, "; ".join(sorted(set(inc))[:3])))
+        agg.add(R_, key, not bad, "; ".join(sorted(set(bad))[:2]) if bad else "%d read(s) of y, %d write(s) to r: no read of y can follow a write to r unless r != y was tested" % (len(reads), len(writes)),
+                dfile, (bad and f.line) or f.line, inst=f.full)
+    return viol_fns
+
+
+# --------------------------------------------------------------------------------------------------
 # E2-light on the generic kernels
 # --------------------------------------------------------------------------------------------------
 
@@ -1103,7 +1459,7 @@ def loop_bound(fi, loop):
     return (v["d"], v.get("init"), c["rhs"])
 
 
-def rule_e2(ck, agg, facts):
+def rule_e2(ck, agg, facts, alias_viol=()):
     """index kinds in the CSR-family and dense generic kernels.  Kinds: Row (loop over [0,rows) or row_numbers[.]),
     Col (loop over [0,columns) or col_ind[.]), NZ (loop over [row_ptr[k], row_ptr[k+1])).  r and x are subscripted in
     the kind of their space (r: Row, x: Col; swapped under transposed); val/col_ind in NZ; the initialisation of r
@@ -1315,7 +1671,7 @@ def rule_e2(ck, agg, facts):
             nm = c["callee"].rsplit("::", 1)[-1]
             if nm == "set_memory":
                 if not (len(enc) == 1 and enc[0][1] == "then" and is_bzero(enc[0][0]["c"])):
-                    ck.incomplete("E2.kernel-init", "%s: zero fill of r not directly under if(|b| < eps) (line %s)" % (key, c.get("l")))
+                    (ck.note if f.name in alias_viol else lambda m: ck.incomplete("E2.kernel-init", m))("%s: zero fill of r not directly under if(|b| < eps) (line %s)" % (key, c.get("l")))
                 elif fi.role(a[1]) != ("const", 0.0):
                     ibad.append("r is filled with %s instead of 0 for b = 0 (line %s)" % (render(a[1]), c.get("l")))
             else:
@@ -1326,7 +1682,7 @@ def rule_e2(ck, agg, facts):
                         and {base_name(fi.resolve(c0["lhs"])), base_name(fi.resolve(c0["rhs"]))} == {"r", "y"}:
                     ibad.append("y is copied into r only when r == y: for r != y and b != 0 the summand is lost (line %s)" % c.get("l"))
                 elif not (len(enc) == 2 and enc[0][1] == "then" and is_r_ne_y(enc[0][0]["c"]) and enc[1][1] == "else" and is_bzero(enc[1][0]["c"])):
-                    ck.incomplete("E2.kernel-init", "%s: copy of y into r not under 'else if (r != y)' of the |b| < eps test (line %s)" % (key, c.get("l")))
+                    (ck.note if f.name in alias_viol else lambda m: ck.incomplete("E2.kernel-init", m))("%s: copy of y into r not under 'else if (r != y)' of the |b| < eps test (line %s)" % (key, c.get("l")))
         agg.add("E2.kernel-init", key, not ibad, "; ".join(ibad) if ibad else "set_memory/copy of r cover exactly the extent of r", dfile, f.line, inst=f.full)
 
 
@@ -1342,28 +1698,32 @@ def run(tier):
             _inc(rule, what)
     ck.incomplete = incomplete_once
     ck.rule("E0.instantiable", "every apply/apply_transposed overload a matrix container declares type-checks for documented-supported template arguments "
-            "(an overload that cannot be instantiated cannot return the product; admissible input: any call of that overload)", 128)
+            "(an overload that cannot be instantiated cannot return the product; admissible input: any call of that overload)", 132)
     ck.rule("E1.role", "at every Arch::Apply::* call site each callee parameter (r,x,y,a,b,val,col_ind,row_ptr,rows,columns,used_elements,transposed...) receives the "
             "like-named accessor of the right operand: r<-result, x<-multiplicand, y<-summand, (a,b)=(1,0) in 2-operand and (alpha,1) in 4-operand forms, matrix arrays and "
             "extents from *this in native perspective, transposed flag/kernel = method (breaks for rectangular matrices, alpha != 1, blocked operands)", 424)
     ck.rule("E1.dispatch", "every Arch::Apply::X dispatch wrapper forwards its own parameters position by position to X_generic/_mkl/_cuda (breaks for every product through that wrapper)", 9)
     ck.rule("E1.guard", "each dimension guard XASSERT(v.size() == this->rows|columns<P>()) states the role assignment of the product: r,y <-> rows, x <-> columns, swapped when "
-            "transposing, in the unit (scalars/blocks) of the operand type (a wrong guard aborts admissible rectangular / blocked inputs)", 131)
+            "transposing, in the unit (scalars/blocks) of the operand type (a wrong guard aborts admissible rectangular / blocked inputs)", 141)
     ck.rule("E7.exit-defines-r", "in every scalar container apply*, every normal exit is preceded on all paths by a definition of r: the kernel call with r in slot r, "
             "r.format() (2-operand) or r.copy(y)/r.convert(y) (4-operand) (breaks for matrices without entries, alpha = 0)", 36)
     ck.rule("E7.early-out", "an early-out that is the final definition of r has the form of its arity (format / copy(y)) and is taken only under a disjunction of "
             "zero-product conditions (used_elements()==0, rows()/columns()==0, |alpha|<eps)", 32)
     ck.rule("E7.alpha-guard", "a kernel that divides by a (transposed CSR/CSCR/BCSR kernels compute b/a) is unreachable when |alpha| < eps (alpha = 0 would give inf/NaN)", 7)
-    ck.rule("C6.inputs-const", "every apply* is a const member taking x and y as const references and contains no cast that removes constness (inputs are never modified)", 124)
-    ck.rule("C6.view-alias", "range views DenseVector(x|y, n, off) alias the input through a const_cast in the constructor: they only occur in const callee positions", 14)
+    ck.rule("C6.inputs-const", "every apply* is a const member taking x and y as const references and contains no cast that removes constness (inputs are never modified)", 132)
+    ck.rule("C6.view-alias", "range views DenseVector(x|y, n, off) alias the input through a const_cast in the constructor: they only occur in const callee positions", 18)
     ck.rule("C6.kernel-const", "in every Arch::Apply kernel/wrapper only the first pointer (r) is writable and no cast removes constness", 21)
-    ck.rule("E4.parity", "a meta matrix forwards apply to apply and apply_transposed to apply_transposed on every block (wrong for every non-symmetric block)", 140)
+    ck.rule("E4.parity", "a meta matrix forwards apply to apply and apply_transposed to apply_transposed on every block (wrong for every non-symmetric block)", 152)
     ck.rule("E4.matvec", "each block term (block(i,j), result component, x component, y, alpha) matches the block structure of the class: apply r_i (+)= B_ij x_j, "
             "transposed r_j (+)= B_ij^T x_i; the first term of a result component is the defining form (y-component of the same index, alpha), later terms accumulate onto "
-            "the same result component with the same alpha; DenseVector range views have length/offset equal to the extents of the blocks they cover", 140)
-    ck.rule("E4.blocks", "every block of the class structure is applied exactly once per apply* (a dropped block loses a term for every input)", 88)
+            "the same result component with the same alpha; DenseVector range views have length/offset equal to the extents of the blocks they cover", 152)
+    ck.rule("E4.blocks", "every block of the class structure is applied exactly once per apply* (a dropped block loses a term for every input)", 96)
     ck.rule("E4.view-perspective", "flat DenseVector overloads of meta matrices take range lengths/offsets and size guards in pod (scalar) perspective "
-            "(native extents are wrong for every sub-matrix with block size > 1)", 16)
+            "(native extents are wrong for every sub-matrix with block size > 1)", 20)
+    ck.rule("E5.alias-safe", "r may alias y (apply*(r,x,r,alpha) is permitted by the API and used internally by SaddlePoint/Tuple/Power matrices): in every Arch::Apply "
+            "kernel/wrapper every read of y precedes every write to r that can hit it, or is the element-wise pairing r[i] <- y[i] on the loop's induction variable, or lies "
+            "on a path where r != y was tested true (copy idiom), or is a value only multiplied by b on a |b| < eps path; a fill/copy of all of r (or a full-range loop writing r) "
+            "followed by a read of y is a violation (input class: 4-operand forms with r aliasing y)", 17)
     ck.rule("E2.kernel-returns", "every *_generic kernel has a normal exit (an operation the container offers must not abort unconditionally)", 9)
     ck.rule("E2.kernel-kinds", "in the CSR/CSCR/BCSR/CSRSB/dense generic kernels r is subscripted by Row-kind and x by Col-kind indices (swapped when transposing), "
             "val/col_ind by the row_ptr segment of a Row index (breaks for rectangular shapes, empty rows)", 7)
@@ -1416,7 +1776,8 @@ def run(tier):
             ck.incomplete("E1.role", "Arch::Apply kernel called from %s (%s), which is not an apply* member of an anchored container" % (f.full, f.loc))
     rule_e1_dispatch(ck, agg, facts, bydecl)
     rule_c6_kernels(ck, agg, facts)
-    rule_e2(ck, agg, facts)
+    alias_viol = rule_alias(ck, agg, facts)
+    rule_e2(ck, agg, facts, alias_viol)
     agg.flush()
 
     ck.assume("template arguments analysed: double/Index (quick) plus float, unsigned int and further block shapes (thorough); BCSR blocks 2x3, 3x3, 2x2, 2x1, 1x2; "
@@ -1430,5 +1791,5 @@ def run(tier):
             "zero-product condition, alpha=0 never reaches a kernel dividing by alpha (E7); (6) inputs are const everywhere incl. range views (C6); (7) block structure, "
             "method parity, defining/accumulating forms and range-view extents of all meta matrices (E4); (4, partly) index kinds and initialisation extents of the CSR-family and "
             "dense generic kernels (E2). Not decided: numerical equality with the dense product / rounding bound, sign and constant-factor errors inside a kernel that keep index "
-            "kinds, the offset arithmetic of the banded kernel, MKL/CUDA back ends, r==x aliasing (guarded by XASSERT at run time).")
+            "kinds, the offset arithmetic of the banded kernel, MKL/CUDA back ends, r==x aliasing (guarded by XASSERT at run time); r==y aliasing is decided for the kernels/wrappers (E5.alias-safe), element-write/read overlaps the rule cannot order are reported as analysis-incomplete.")
     return ck.finish(expl)
